@@ -24,11 +24,16 @@ fn logical(bars: &[Option<ProgressBar>]) -> String {
     }).collect::<Vec<_>>().join(",")
 }
 
-pub fn exec(c: &Case, fault: Option<(usize, bool)>) -> (Vec<Step>, usize, String) {
+/// the kinds of error a terminal call may fail with (some are 'transient' kinds that code likes to special-case)
+pub const KINDS: [std::io::ErrorKind; 5] = [std::io::ErrorKind::Other, std::io::ErrorKind::BrokenPipe, std::io::ErrorKind::WouldBlock, std::io::ErrorKind::Interrupted, std::io::ErrorKind::TimedOut];
+
+pub fn exec(c: &Case, fault: Option<(usize, bool)>) -> (Vec<Step>, usize, String) { exec_kind(c, fault, std::io::ErrorKind::Other) }
+
+pub fn exec_kind(c: &Case, fault: Option<(usize, bool)>, kind: std::io::ErrorKind) -> (Vec<Step>, usize, String) {
     vh::set_auto_advance_ns(0);
     vh::set_now_ns(T0);
     let rec = Recorder::new(c.h, c.w, false);
-    if let Some((k, sticky)) = fault { rec.set_fault(k, sticky); }
+    if let Some((k, sticky)) = fault { rec.set_fault(k, sticky); rec.set_fault_kind(kind); }
     let target = if c.hz == 0 { ProgressDrawTarget::term_like(Box::new(rec.clone())) } else { ProgressDrawTarget::term_like_with_hz(Box::new(rec.clone()), c.hz) };
     let mp = MultiProgress::with_draw_target(target);
     let mut bars: Vec<Option<ProgressBar>> = Vec::new();
@@ -56,6 +61,7 @@ pub fn exec(c: &Case, fault: Option<(usize, bool)>) -> (Vec<Step>, usize, String
                 MOp::MpPrintln(t) => { io_ok = Some(mp.println(t).is_ok()); }
                 MOp::MpClear => { io_ok = Some(mp.clear().is_ok()); }
                 MOp::MpSuspend(ls) => { let r2 = rec.clone(); let l2 = ls.clone(); mp.suspend(move || for l in &l2 { let _ = r2.write_line(l); }); }
+                MOp::Retarget => mp.set_draw_target(if c.hz == 0 { ProgressDrawTarget::term_like(Box::new(rec.clone())) } else { ProgressDrawTarget::term_like_with_hz(Box::new(rec.clone()), c.hz) }),
                 MOp::Align(b) => mp.set_alignment(if *b { MultiProgressAlignment::Bottom } else { MultiProgressAlignment::Top }),
                 MOp::Bar(k, bop) => {
                     if let Some(pb) = bars[*k].as_ref() {
@@ -108,6 +114,9 @@ pub fn run(seed: u64, tier: &str, out: &mut Out) {
     for _ in 0..n {
         let mut c = multi::gen_case(&mut rng, false);
         c.ops.truncate(14);
+        // half of the histories change the draw target somewhere (a rarely used call with its own terminal traffic)
+        if rng.chance(1, 2) { let at = rng.below(c.ops.len() as u64 + 1) as usize; c.ops.insert(at, MOp::Retarget); }
+        let kind0 = rng.below(KINDS.len() as u64) as usize;
         let case = multi::encode(&c);
         let (base, calls, tail0) = exec(&c, None);
         let mut verdict = String::from("ok");
@@ -116,12 +125,13 @@ pub fn run(seed: u64, tier: &str, out: &mut Out) {
         'plans: for k in 0..calls {
             for sticky in [false, true] {
                 plans += 1;
-                let (st, _, tail) = exec(&c, Some((k, sticky)));
+                let kind = KINDS[(kind0 + k + sticky as usize) % KINDS.len()];
+                let (st, _, tail) = exec_kind(&c, Some((k, sticky)), kind);
                 for (i, (a, b)) in base.iter().zip(st.iter()).enumerate() {
                     if b.outcome != "ok" { verdict = format!("FAIL panic k={k} sticky={sticky} op={i} {} then {tail}", c.ops[i].enc()); break 'plans; }
                     if b.logical.contains("PANIC") { verdict = format!("FAIL poisoned k={k} sticky={sticky} op={i} {}", c.ops[i].enc()); break 'plans; }
                     if a.logical != b.logical { verdict = format!("FAIL logical-state k={k} sticky={sticky} op={i} {} without={} with={}", c.ops[i].enc(), a.logical, b.logical); break 'plans; }
-                    if let Some(ok) = b.io_ok { if ok == b.failed_during { verdict = format!("FAIL result-not-reported k={k} sticky={sticky} op={i} {} returned_ok={ok} failed_during={}", c.ops[i].enc(), b.failed_during); break 'plans; } }
+                    if let Some(ok) = b.io_ok { if ok == b.failed_during { verdict = format!("FAIL result-not-reported k={k} sticky={sticky} kind={kind:?} op={i} {} returned_ok={ok} failed_during={}", c.ops[i].enc(), b.failed_during); break 'plans; } }
                 }
                 if tail != "ok" { verdict = format!("FAIL later-calls k={k} sticky={sticky} {tail}"); break 'plans; }
             }
